@@ -246,11 +246,13 @@ class AbstractFieldFormat(object):
 
         :raises cutplace.errors.FieldValueError: if ``value`` is invalid
         """
-        self.validate_characters(value)
         if self.data_format.format == data.FORMAT_FIXED:
             possibly_stripped_value = value.strip()
         else:
             possibly_stripped_value = value
+        if possibly_stripped_value:
+            # NOTE: A fixed value consisting only of blanks is empty, even if blanks are no allowed characters.
+            self.validate_characters(value)
         self.validate_empty(possibly_stripped_value)
         self.validate_length(value)
         if possibly_stripped_value:
